@@ -253,7 +253,7 @@ func checkC17(c *km.Ctx) {
 	// ---------- R-C17-1
 	n := 0
 	for _, fn := range c.P.AllFuncs {
-		if fn.Pkg == nil || fn.Pkg.Pkg.Path() != KMD {
+		if fn.Pkg == nil || !pkgIsKMD(fn.Pkg) {
 			continue
 		}
 		for _, ci := range km.CallsIn(fn) {
@@ -307,7 +307,7 @@ func checkC17(c *km.Ctx) {
 	// ---------- R-C17-3
 	nSt := 0
 	for _, fn := range c.P.AllFuncs {
-		if fn.Pkg == nil || fn.Pkg.Pkg.Path() != KMD {
+		if fn.Pkg == nil || !pkgIsKMD(fn.Pkg) {
 			continue
 		}
 		for _, st := range storesByField(fn, KMD+".pendingAuth2Request")["loginDestination"] {
